@@ -26,4 +26,8 @@ def main():
             if p.returncode != 0:
                 ok = False
                 core.log(p.stdout[-1500:])
-    return 0 if ok else 1
+    # setup only warms the build cache; every check rebuilds what it needs and reports exit 2 itself
+    # if its driver does not build, so a failing driver must not fail the whole setup.
+    if not ok:
+        core.log("setup: some drivers failed to build (see above); continuing")
+    return 0
